@@ -26,7 +26,7 @@ X_NONE, X_TIMEOUT, X_OTHER = 0, 1, 2
 FREE = 63  # lock owner value meaning "not held"
 NOREG = 7  # regpos value meaning "not in the registry"
 
-ALL_KINDS = ["TIMEOUT_SUB", "TIMEOUT_PS", "NOSUCH", "OSERR", "SHUTDOWN", "INVALID", "CANCELLED"]
+ALL_KINDS = ["TIMEOUT_SUB", "TIMEOUT_PS", "NOSUCH", "OSERR", "SHUTDOWN", "INVALID", "CANCELLED", "ATTRERR"]
 
 
 class Unsupported(Exception):
@@ -591,8 +591,6 @@ class Model:
                 raise Unsupported(f"line {st.lineno}: mixed context managers")
             kk = K(rest, lambda kind: rest() if kind in suppress else k.exc(kind), k.ret)
             return self.block(st.body, env2, kk, th)
-        if tpe and not lock:
-            raise Unsupported(f"line {st.lineno}: thread pool without the lock")
 
         def exit_to(edge_thunk):
             def mk():
@@ -600,13 +598,16 @@ class Model:
                 cond = T
                 if tpe:
                     cond = self.tasks_done(sweep)
-                self.out(n, cond, [("lock", ("const", FREE))], edge_thunk())
+                self.out(n, cond, [("lock", ("const", FREE))] if lock else [], edge_thunk())
                 return Edge(n.id)
             return mk
 
         kk = K(exit_to(rest), lambda kind: exit_to(lambda: k.exc(kind))(), exit_to(k.ret))
         n = self.node(th, st.lineno, "with-enter")
-        self.out(n, ("eq", "lock", FREE), [("lock", ("const", th.idx))], Edge(END))  # target patched below
+        if lock:
+            self.out(n, ("eq", "lock", FREE), [("lock", ("const", th.idx))], Edge(END))  # target patched below
+        else:
+            self.out(n, T, [], Edge(END))  # a thread pool alone: nothing to acquire
         o = n.outs[-1]
         body = self.block(st.body, env2, kk, th)
         o.target = body.target
@@ -722,9 +723,21 @@ class Model:
                 j = env[m.group(1)][1]
                 return simple_node("append", [(T, [(f"regpos{j}", ("var", "nreg")), ("nreg", ("inc", "nreg")),
                                                    (f"missed{j}", ("bool", ("b", "swept")))], rest())])
+            if isinstance(st, ast.Assign) and len(targets) == 1 and re.fullmatch(r"\w+", targets[0]) \
+                    and ast.unparse(val) in ("list(self._futures)", "self._futures[:]", "self._futures.copy()"):
+                # a local snapshot of the registry (append-only: the snapshot is the prefix of length nreg)
+                sv = self.var(f"snap{th.idx}")
+                e2 = dict(env)
+                e2[targets[0]] = ("snapshot", sv)
+                n = self.node(th, ln, "snapshot")
+                self.out(n, T, [(sv, ("var", "nreg"))], krest(e2)())
+                return Edge(n.id)
             if isinstance(st, ast.Assign) and isinstance(val, ast.ListComp) and len(targets) == 1:
                 g = val.generators
-                if (len(g) == 1 and not g[0].ifs and ast.unparse(g[0].iter) == "self._futures"
+                it_src = ast.unparse(g[0].iter) if len(g) == 1 else ""
+                it_obj = self.obj(g[0].iter, env) if len(g) == 1 else None
+                snapv = it_obj[1] if it_obj and it_obj[0] == "snapshot" else None
+                if (len(g) == 1 and not g[0].ifs and (it_src in ("self._futures", "list(self._futures)") or snapv)
                         and isinstance(g[0].target, ast.Name) and isinstance(val.elt, ast.Call)
                         and isinstance(val.elt.func, ast.Attribute) and val.elt.func.attr == "submit"
                         and self.obj(val.elt.func.value, env) and self.obj(val.elt.func.value, env)[0] == "tpe"
@@ -741,8 +754,8 @@ class Model:
                         if e.effects:
                             raise Unsupported("cancel begins with effects")
                         ct.entry = e.target
-                        eff.append((f"pc{ct.idx}", ("ite", ("ne", f"regpos{j}", NOREG), ("const", ct.entry),
-                                                    ("const", IDLE))))
+                        member = ("ne", f"regpos{j}", NOREG) if not snapv else ("ltv", f"regpos{j}", snapv)
+                        eff.append((f"pc{ct.idx}", ("ite", member, ("const", ct.entry), ("const", IDLE))))
                     e2 = dict(env)
                     e2[targets[0]] = ("tasks", sweep["id"])
                     n = self.node(th, ln, "sweep")
